@@ -15,3 +15,7 @@ pub mod postcanon;
 pub mod inv;
 pub mod c04gen;
 pub mod c01gen;
+pub mod inventory;
+pub mod probe;
+pub mod irlayout;
+pub mod cgraph;
